@@ -341,8 +341,10 @@ def _op_matrix(op, S):
     raise NoModel('operator ' + type(op).__name__)
 
 
-def wire(f, S):
-    """Wire expression of the live functional `f` (by class and attributes)."""
+def wire(f, S, need_inverse=True):
+    """Wire expression of the live functional `f` (by class and attributes).
+    need_inverse=False (C09): a QuadraticForm operator without an exact inverse is still
+    serialised (inverse `-`); the adjoint matrix is always read from the live `operator.adjoint`."""
     import odl
     import odl.solvers as sol
     from odl.solvers.functional import functional as F
@@ -367,39 +369,46 @@ def wire(f, S):
         if f.operator is None:
             return 'lin|{}|{}'.format(fl(S.flat(f.vector)), c)
         M = _op_matrix(f.operator, S)
+        Mt = _op_matrix(f.operator.adjoint, S)
         try:
             Mi = _op_matrix(f.operator.inverse, S)
         except NoModel:
-            raise
+            Mi = None
         except Exception:
             Mi = None
-        if Mi is None or not _exact_inverse(M, Mi):
+        if Mi is not None and not _exact_inverse(M, Mi):
+            Mi = None
+        if Mi is None and need_inverse:
             raise NoModel('QuadraticForm operator without exact inverse')
         b = S.flat(f.vector) if f.vector is not None else [0.0] * S.size
-        return 'quad|{}|{}|{}|{}|{}'.format(core.fmat(M), core.fmat(Mi),
-                                            1 if f.vector is not None else 0, fl(b), c)
+        return 'quad|{}|{}|{}|{}|{}|{}'.format(core.fmat(M), core.fmat(Mt),
+                                               core.fmat(Mi) if Mi is not None else '-',
+                                               1 if f.vector is not None else 0, fl(b), c)
     if t is F.FunctionalLeftScalarMult:
-        return 'lscal|{}|{}'.format(fs(float(f.scalar)), wire(f.functional, S))
+        return 'lscal|{}|{}'.format(fs(float(f.scalar)), wire(f.functional, S, need_inverse))
     if t is F.FunctionalRightScalarMult:
-        return 'rscal|{}|{}'.format(fs(float(f.scalar)), wire(f.functional, S))
+        return 'rscal|{}|{}'.format(fs(float(f.scalar)), wire(f.functional, S, need_inverse))
     if t is F.FunctionalRightVectorMult:
-        return 'rvec|{}|{}'.format(fl(S.flat(f.vector)), wire(f.functional, S))
+        return 'rvec|{}|{}'.format(fl(S.flat(f.vector)), wire(f.functional, S, need_inverse))
     if t is F.FunctionalScalarSum:
-        return 'ssum|{}|{}'.format(fs(float(f.scalar)), wire(f.left, S))
+        return 'ssum|{}|{}'.format(fs(float(f.scalar)), wire(f.left, S, need_inverse))
     if t is F.FunctionalSum:
-        return 'sum|{}|{}'.format(wire(f.left, S), wire(f.right, S))
+        return 'sum|{}|{}'.format(wire(f.left, S, need_inverse), wire(f.right, S, need_inverse))
     if t is F.FunctionalTranslation:
-        return 'trans|{}|{}'.format(fl(S.flat(f.translation)), wire(f.functional, S))
+        return 'trans|{}|{}'.format(fl(S.flat(f.translation)), wire(f.functional, S, need_inverse))
     if t is F.FunctionalQuadraticPerturb:
-        return 'qp|{}|1|{}|{}|{}'.format(fs(float(f.quadratic_coeff)), fl(S.flat(f.linear_term)),
-                                         fs(float(f.constant)), wire(f.functional, S))
+        lt = S.flat(f.linear_term)
+        # the object does not record whether `linear_term` was given; a zero term is sent as absent
+        # (same value, gradient and grad_lipschitz: ||0|| = 0)
+        return 'qp|{}|{}|{}|{}|{}'.format(fs(float(f.quadratic_coeff)), 1 if any(lt) else 0, fl(lt),
+                                         fs(float(f.constant)), wire(f.functional, S, need_inverse))
     if t is F.FunctionalProduct:
-        return 'prod|{}|{}'.format(wire(f.left, S), wire(f.right, S))
+        return 'prod|{}|{}'.format(wire(f.left, S, need_inverse), wire(f.right, S, need_inverse))
     if t is F.FunctionalQuotient:
-        return 'quot|{}|{}'.format(wire(f.dividend, S), wire(f.divisor, S))
+        return 'quot|{}|{}'.format(wire(f.dividend, S, need_inverse), wire(f.divisor, S, need_inverse))
     if t is F.FunctionalComp:
         op = f.right
-        inner = wire(f.left, S)
+        inner = wire(f.left, S, need_inverse)
         if isinstance(op, odl.PowerOperator):
             p = float(op.exponent)
             if p != int(p) or p < 1:
@@ -409,20 +418,31 @@ def wire(f, S):
             return 'compscale|{}|{}'.format(fs(float(op.scalar)), inner)
         if isinstance(op, odl.MultiplyOperator) and op.multiplicand in S.space:
             return 'compmul|{}|{}'.format(fl(S.flat(op.multiplicand)), inner)
-        return 'compmat|{}|{}'.format(core.fmat(_op_matrix(op, S)), inner)
+        return 'compmat|{}|{}|{}'.format(core.fmat(_op_matrix(op, S)),
+                                         core.fmat(_op_matrix(op.adjoint, S)), inner)
     if t is F.BregmanDistance:
         return 'breg|{}|{}|{}'.format(fl(S.flat(f.point)), fl(S.flat(f.subgrad)),
-                                      wire(f.functional, S))
+                                      wire(f.functional, S, need_inverse))
     if t is F.InfimalConvolution:
-        return 'infconv|{}|{}'.format(wire(f.left, S), wire(f.right, S))
+        return 'infconv|{}|{}'.format(wire(f.left, S, need_inverse), wire(f.right, S, need_inverse))
     if t is F.FunctionalDefaultConvexConjugate:
-        return 'dconj|' + wire(f.convex_conj, S)
+        return 'dconj|' + wire(f.convex_conj, S, need_inverse)
     if t is sol.MoreauEnvelope:
-        inner = wire(f.functional, S)
+        inner = wire(f.functional, S, need_inverse)
         if inner not in ('l1', 'l2sq'):
             raise NoModel('MoreauEnvelope of ' + inner)
         return 'menv|{}|{}'.format(fs(float(f.sigma)), inner)
     raise NoModel(t.__name__)
+
+
+WIRE_CLASSES = {'l1', 'indlinf', 'huber', 'l2sq', 'const', 'indzero', 'lin', 'quad', 'lscal', 'rscal',
+                'rvec', 'sum', 'ssum', 'trans', 'qp', 'prod', 'quot', 'breg', 'infconv', 'compmat',
+                'compscale', 'compmul', 'comppow', 'menv', 'dconj'}
+
+
+def skeleton(w):
+    """Class skeleton (prefix order) of a wire expression, as `Fn.skel` prints it."""
+    return '|'.join('comp' if t.startswith('comp') else t for t in w.split('|') if t in WIRE_CLASSES)
 
 
 def _exact_inverse(M, Mi):
